@@ -65,6 +65,7 @@ def run(run, ix, tier):
     run.trusted = []
     for r, fl in (('O-R1', 4), ('O-R2', 3), ('O-R3', 3), ('O-R4', 1), ('O-R5', 2), ('O-R6', 2)):
         run.rule(r, floor=fl)
+    check_tolerance_bits(run, ix)
     m = ix.module(ODES)
     od = ix.func(ODES, 'odefun')
     interp = ix.func(ODES, 'odefun.interpolant')
@@ -367,3 +368,41 @@ def _anc_ifs(node, stop):
         child = p
         p = getattr(p, '_parent', None)
     return out
+
+
+def check_tolerance_bits(run, ix):
+    """O-R7.  The requested tolerance reaches the Taylor stepper as a number of BITS (`tol_prec`,
+    used as 2**-tol_prec for the internal tolerance and the Euler step).  A bit count obtained from
+    a logarithm must be a base-2 logarithm: `int(-log(tol, 2))`.  With the natural logarithm the
+    internal tolerance becomes tol**0.69 and tight tolerances are silently missed.  (All six
+    precision-from-logarithm conversions of the package use base 2.)"""
+    run.rule('O-R7', floor=1, desc='tolerance converted to bits with a base-2 logarithm')
+    od = ix.func(ODES, 'odefun')
+    n = 0
+    for x in _walk_own(od.node):
+        if isinstance(x, ast.Assign) and len(x.targets) == 1 and norm(x.targets[0]).endswith('prec'):
+            logs = [c for c in ast.walk(x.value) if isinstance(c, ast.Call) and norm(c.func).split('.')[-1] == 'log']
+            for c in logs:
+                n += 1
+                base2 = len(c.args) == 2 and isinstance(c.args[1], ast.Constant) and c.args[1].value == 2
+                # ln(x)/ln(2) or ln(x)*1.4427 are base 2 as well
+                if len(c.args) == 1 and isinstance(c.args[0], ast.Constant) and c.args[0].value == 2:
+                    continue            # the constant ln(2) of a change of base
+                par = getattr(c, '_parent', None)
+                while isinstance(par, ast.UnaryOp):
+                    par = getattr(par, '_parent', None)
+                conv = isinstance(par, ast.BinOp) and (
+                    (isinstance(par.op, ast.Div) and 'log(2)' in norm(par.right)) or
+                    (isinstance(par.op, ast.Mult) and any(isinstance(k, ast.Constant) and isinstance(k.value, float)
+                                                           and abs(k.value - 1.4426950408889634) < 1e-3
+                                                           for k in (par.left, par.right))))
+                if base2 or conv:
+                    run.ok('O-R7', '%s: %s' % (norm(x.targets[0]), norm(c)))
+                else:
+                    run.fail(Finding('O-R7', ODES, od.qualname, norm(x),
+                                     '`%s` is a number of bits but is taken from `%s`, which is not a base-2 '
+                                     'logarithm: the internal tolerance becomes tol**0.69 instead of tol, so the '
+                                     'requested accuracy is missed for tight tolerances' % (norm(x.targets[0]), norm(c)),
+                                     line=x.lineno))
+    if n == 0:
+        raise AnalysisError('odefun: conversion of the tolerance to bits not found')
